@@ -3,6 +3,7 @@ import DendroModel.Theory.C07Path
 import DendroModel.Theory.C07Perm
 import DendroModel.Theory.C17Frac
 import DendroModel.Theory.Reseed
+import DendroModel.Theory.C01Reseed
 import Mathlib.Tactic
 /-! C07 — theorems about the executable model `Model/C07.lean` (the definitions `drv_c07` runs). -/
 
@@ -636,7 +637,9 @@ end DendroModel.C07.Aux
 namespace DendroModel.C07
 open DendroModel DendroModel.C07.Aux
 
-/-- one inversion step of the chain keeps the set of normalised (unrooted) split masks of the leaf taxa, for every
+/-- (Single step; the whole chain, the basal collapse and the suppression are assembled in `reseed_keeps_usplits` and
+    `reroot_at_node_keeps_usplits` at the end of this file.)
+    One inversion step of the chain keeps the set of normalised (unrooted) split masks of the leaf taxa, for every
     labelling in which sibling clades are disjoint and non-empty (`GoodL`) and every reference bit `lo` of the tree.
     `_partial`: single step (the same statement for the whole chain needs `GoodL` to be carried along the chain, which is
     not proved here; the from-scratch split oracle checks it on every generated case). -/
@@ -2395,4 +2398,467 @@ open DendroModel DendroModel.C07.Aux
 /-- default suppression, unrooted flag, outgroup = leaf C of `exTree`: the hypotheses hold and the call succeeds -/
 example : ∃ r, toOutgroup (some false) true 4 exTree = some r ∧ (idsOf exTree).Nodup ∧ 2 ≤ exTree.cs.length :=
   ⟨_, rfl, by decide, by decide⟩
+end DendroModel.C07
+
+namespace DendroModel.C07.Aux
+open DendroModel DendroModel.C07 DendroModel.Hier DendroModel.C01.Bridge
+
+theorem toHL_length' : ∀ cs : List T, (T.toHL cs).length = cs.length
+  | [] => rfl
+  | c :: cs => by simp [T.toHL, toHL_length' cs]
+
+theorem toHL_ne_nil {cs : List T} (h : cs ≠ []) : T.toHL cs ≠ [] := by
+  intro e
+  have := congrArg List.length e
+  rw [toHL_length'] at this
+  exact h (List.length_eq_zero_iff.mp this)
+
+/-- what one inversion keeps on the taxon side: well-formedness, the taxon set, the normalised split set -/
+structure SplitKeep (lo : Nat) (t u : T) : Prop where
+  good : GoodL (T.toHL u.cs)
+  maskEq : maskL (T.toHL u.cs) = maskL (T.toHL t.cs)
+  splits : ∀ s, s ∈ usplits lo (T.toH u) ↔ s ∈ usplits lo (T.toH t)
+
+theorem step_splitKeep {t u : T} (h : Step t u) (lo : Nat)
+    (hg : GoodL (T.toHL t.cs)) (hlo : bits lo ⊆ bits (maskL (T.toHL t.cs)))
+    (hsingle : ∀ a, bits lo ⊆ bits a ∨ Disjoint (bits lo) (bits a)) (hne : lo ≠ 0) : SplitKeep lo t u := by
+  have hs := inversion_step_keeps_unrooted_splits_partial h lo hg hlo hsingle hne
+  cases h with
+  | mk i x l s pre j y lc sc ds post hds hrest =>
+    simp only [T.cs, toHL_append, T.toHL, toH_node_ne hds] at hg
+    have hrest' : T.toHL pre ++ T.toHL post ≠ [] := by rw [← toHL_append]; exact toHL_ne_nil hrest
+    obtain ⟨hgp, hgr, hd1⟩ := (goodL_append_iff _ _).mp hg
+    simp only [GoodL] at hgr
+    obtain ⟨hgds, _, hd2, hgR⟩ := hgr
+    simp only [Good] at hgds
+    simp only [maskL, mask] at hd1 hd2
+    have hdpds : maskL (T.toHL pre) &&& maskL (T.toHL ds) = 0 := by
+      rw [and_eq_zero_iff, bits_or, Set.disjoint_union_right] at hd1; exact (and_eq_zero_iff _ _).mpr hd1.1
+    have hdpR : maskL (T.toHL pre) &&& maskL (T.toHL post) = 0 := by
+      rw [and_eq_zero_iff, bits_or, Set.disjoint_union_right] at hd1; exact (and_eq_zero_iff _ _).mpr hd1.2
+    have hgo : GoodL (T.toHL pre ++ T.toHL post) := (goodL_append_iff _ _).mpr ⟨hgp, hgR, hdpR⟩
+    have hdis : ∀ c ∈ T.toHL ds, mask c &&& mask (Hier.T.node (T.toHL pre ++ T.toHL post)) = 0 := by
+      intro c hc
+      simp only [mask]
+      rw [Hier.maskL_append, and_eq_zero_iff, bits_or, Set.disjoint_union_right]
+      have hsub := bits_maskL_subset_of_mem hc
+      constructor
+      · exact (((and_eq_zero_iff _ _).mp hdpds).symm).mono_left hsub
+      · exact ((and_eq_zero_iff _ _).mp hd2).mono_left hsub
+    refine ⟨?_, ?_, hs⟩
+    · simp only [T.cs, toHL_append, T.toHL, toH_node_ne hrest]
+      exact goodL_snoc hgds (by simpa [Good] using hgo) (by simpa [mask] using maskL_ne_zero hgo hrest') hdis
+    · simp only [T.cs, toHL_append, T.toHL, toH_node_ne hrest, toH_node_ne hds]
+      exact maskL_invert _ _ _
+
+theorem reach_splitKeep {t r : T} (h : Reach t r) (lo : Nat)
+    (hsingle : ∀ a, bits lo ⊆ bits a ∨ Disjoint (bits lo) (bits a)) (hne : lo ≠ 0) :
+    GoodL (T.toHL t.cs) → bits lo ⊆ bits (maskL (T.toHL t.cs)) → SplitKeep lo t r := by
+  induction h with
+  | refl t => intro hg _; exact ⟨hg, rfl, fun _ => Iff.rfl⟩
+  | step st _ ih =>
+    intro hg hlo
+    have k1 := step_splitKeep st lo hg hlo hsingle hne
+    have k2 := ih k1.good (by rw [k1.maskEq]; exact hlo)
+    exact ⟨k2.good, k2.maskEq.trans k1.maskEq, fun s => (k2.splits s).trans (k1.splits s)⟩
+
+theorem withLen_toH' (t : T) (l : Option Frac) : T.toH (t.withLen l) = T.toH t := by
+  cases t with
+  | node i x l' s cs => cases cs <;> simp [T.withLen, T.toH]
+
+mutual
+theorem sup_toH' : ∀ t : T, T.toH (sup t) = Hier.sup (T.toH t)
+  | .node i x l s [] => by
+    cases x <;> simp [sup, supL, T.toH, Hier.sup, Hier.supL]
+  | .node i x l s (c :: cs) => by
+    have h := supL_toH' (c :: cs)
+    simp only [sup, T.toH, Hier.sup]
+    rw [← h]
+    cases hs : supL (c :: cs) with
+    | nil => simp [supL] at hs
+    | cons d ds =>
+      cases ds with
+      | nil => simp [T.toHL, withLen_toH']
+      | cons e es => simp [T.toHL, T.toH]
+theorem supL_toH' : ∀ cs : List T, T.toHL (supL cs) = Hier.supL (T.toHL cs)
+  | [] => rfl
+  | c :: cs => by simp [supL, T.toHL, Hier.supL, sup_toH' c, supL_toH' cs]
+end
+
+/-- suppression below a root that keeps ≥ 2 children keeps the normalised split set -/
+theorem sup_usplits (lo : Nat) (t : T) (h2 : 2 ≤ t.cs.length) :
+    ∀ s, s ∈ usplits lo (T.toH (sup t)) ↔ s ∈ usplits lo (T.toH t) := by
+  intro s
+  rw [sup_toH']
+  cases t with
+  | node i x l s' cs =>
+    simp only [T.cs] at h2
+    have hne : cs ≠ [] := by intro e; subst e; simp at h2
+    rw [toH_node_ne hne]
+    have hlen : (Hier.supL (T.toHL cs)).length = cs.length := by rw [Hier.supL_length, toHL_length']
+    have hsup : Hier.sup (.node (T.toHL cs)) = .node (Hier.supL (T.toHL cs)) := by
+      simp only [Hier.sup]
+      split
+      · rename_i c hc; rw [hc] at hlen; simp at hlen; omega
+      · rfl
+    rw [hsup]
+    simp only [usplits, List.mem_map, Hier.supL_mask]
+    constructor
+    · rintro ⟨a, ha, rfl⟩; exact ⟨a, (Hier.supL_clades _ a).mp ha, rfl⟩
+    · rintro ⟨a, ha, rfl⟩; exact ⟨a, (Hier.supL_clades _ a).mpr ha, rfl⟩
+
+end DendroModel.C07.Aux
+
+namespace DendroModel.C07
+open DendroModel DendroModel.C07.Aux DendroModel.Hier DendroModel.C01.Bridge
+
+/-- **`reroot_at_node` keeps the set of unrooted splits** — the whole chain of inversions, with or without unifurcation
+    suppression: for every tree whose leaves carry distinct taxa (`GoodL`: sibling clades non-empty and disjoint), every
+    reference taxon bit `k` of the tree, every internal target and a seed with ≥ 2 children, the set of normalised split masks
+    of the result equals that of the tree. -/
+theorem reroot_at_node_keeps_usplits (suppress : Bool) (tgt : Nat) (t : T) (k : Nat)
+    (hint : ∀ n ∈ t.nodes, n.id = tgt → n.cs ≠ []) (h2 : 2 ≤ t.cs.length)
+    (hg : GoodL (T.toHL t.cs)) (hk : k ∈ bits (maskL (T.toHL t.cs))) :
+    ∀ s, s ∈ usplits (1 <<< k) (T.toH (rerootAtNode suppress tgt t).1) ↔ s ∈ usplits (1 <<< k) (T.toH t) := by
+  have hr := invert_is_chain tgt t hint h2
+  have hlo : bits (1 <<< k) ⊆ bits (maskL (T.toHL t.cs)) := by
+    rw [bits_shift]; exact Set.singleton_subset_iff.mpr hk
+  have K := reach_splitKeep hr (1 <<< k) (single_shift k) (shift_ne_zero k) hg hlo
+  have e : (rerootAtNode suppress tgt t).1 = if suppress then sup (invertTo tgt t) else invertTo tgt t := by
+    simp only [rerootAtNode, reseedAt, cleanup, Bool.false_and, Bool.false_eq_true, if_false]
+    cases hf : T.find? tgt t with
+    | none => simp
+    | some n =>
+      obtain ⟨h1, h2'⟩ := find_mem tgt t n hf
+      have hne := hint n h1 h2'
+      have : n.cs.isEmpty = false := by
+        cases hcs : n.cs with
+        | nil => exact absurd hcs hne
+        | cons _ _ => rfl
+      simp [this]
+  rw [e]
+  cases suppress
+  · simpa using K.splits
+  · intro s
+    simp only [if_true]
+    rw [sup_usplits _ _ (reach_two hr h2) s]
+    exact K.splits s
+
+/-- `exTree` carries the taxa 0, 1, 2 on its three leaves: the hypotheses hold and the statement is about non-empty sets -/
+example : GoodL (T.toHL exTree.cs) ∧ 0 ∈ bits (maskL (T.toHL exTree.cs)) ∧ usplits (1 <<< 0) (T.toH exTree) ≠ [] := by
+  refine ⟨by simp [exTree, T.cs, T.toHL, T.toH, GoodL, Good, mask, maskL], ?_, by decide⟩
+  show (maskL (T.toHL exTree.cs)).testBit 0 = true
+  decide
+
+end DendroModel.C07
+
+namespace DendroModel.C07.Aux
+open DendroModel DendroModel.C07 DendroModel.C07.Path
+
+/-- the edge split keeps well-formed lengths and the number of children of every old node — for ANY two new lengths -/
+theorem splitEdge_basic (h nw : Nat) (lT lH : Option Frac) (hlT : OWF lT) (hlH : OWF lH) :
+    ∀ (k : Nat) (t : T), t.size ≤ k → (idsOf t).Nodup → LenWF t →
+      LenWF (splitEdge h nw lT lH t) ∧ (splitEdge h nw lT lH t).cs.length = t.cs.length
+  | 0, .node i x l s cs, hk, _, _ => by simp [T.size] at hk
+  | k + 1, .node i x l s cs, hk, hids, hwf => by
+    rw [idsOf_node] at hids
+    have hidsL := (List.nodup_cons.mp hids).2
+    rw [splitEdge]
+    split
+    · rename_i c hc
+      have hcmem : c ∈ cs := List.mem_of_find?_eq_some hc
+      have P := front_perm h cs c ((childIds_sublist cs).nodup hidsL) hc
+      have hwc : LenWF c := lenWF_child hwf hcmem
+      refine ⟨?_, ?_⟩
+      · intro n hn f hf
+        simp only [T.nodes, nodesL_append, T.nodesL, List.append_nil, List.mem_cons, List.mem_append] at hn
+        rcases hn with rfl | hn | rfl | hn
+        · exact hwf _ (mem_nodes_self _) f (by simpa [T.len] using hf)
+        · obtain ⟨d, hd, hnd'⟩ := mem_nodesL.mp hn
+          have hd' : d ∈ cs := (List.mem_filter.mp hd).1
+          exact hwf n (by simp only [T.nodes]; exact List.mem_cons_of_mem _ (mem_nodesL.mpr ⟨d, hd', hnd'⟩)) f hf
+        · exact hlT f (by simpa [T.len] using hf)
+        · rcases nodes_withLen c lH n hn with rfl | hn
+          · cases c with
+            | node j y lc sc ds => exact hlH f (by simpa [T.withLen, T.len] using hf)
+          · exact hwc n (by cases c with | node j y lc sc ds => simp only [T.nodes]; exact List.mem_cons_of_mem _ hn) f hf
+      · simp only [T.cs, List.length_append, List.length_singleton]
+        have := P.length_eq; simp only [List.length_cons] at this; omega
+    · rw [splitEdgeL_eq_map]
+      refine ⟨?_, by simp [T.cs]⟩
+      intro n hn f hf
+      simp only [T.nodes, List.mem_cons] at hn
+      rcases hn with rfl | hn
+      · exact hwf _ (mem_nodes_self _) f (by simpa [T.len] using hf)
+      · obtain ⟨d', hd', hnd'⟩ := mem_nodesL.mp hn
+        obtain ⟨d, hd, rfl⟩ := List.mem_map.mp hd'
+        exact (splitEdge_basic h nw lT lH hlT hlH k d (by have := size_lt_of_mem hd; simp only [T.size] at hk; omega)
+          (idsOf_child_nodup hidsL hd) (lenWF_child hwf hd)).1 n hnd' f hf
+
+end DendroModel.C07.Aux
+
+namespace DendroModel.C07
+open DendroModel DendroModel.C07.Aux DendroModel.C07.Path
+
+/-- distance from the root of `r` down to the leaf with id `a` (`none` if `a` is not a leaf below the root) -/
+def rd (r : T) (a : Nat) : Option ℚ := downL (toLTL r.cs) a
+
+/-- **clause (c) in root-distance form, with AND without unifurcation suppression (the library default is with), for ANY two
+    requested lengths:** after `reroot_at_edge(edge, length1, length2)` there are the old head `c` (id `h`) and a subtree `up`
+    hanging from the root by an edge of length `length1` such that every leaf `a` is at root distance
+    `down (c with edge length2) a` if it lies below the head — i.e. `length2` + its depth below the head — and at
+    `down up a` = `length1` + its distance from the old tail node otherwise.  Suppression never moves the root: the two
+    settings give the same root distances.  Distinct node ids, `nw` fresh, the head has a parent, seed with ≥ 2 children,
+    well-formed fractions. -/
+theorem reroot_at_edge_root_distances (s : Bool) (h nw : Nat) (l1 l2 : Option Frac) (t : T) (p : Nat)
+    (hids : (idsOf t).Nodup) (hfresh : nw ∉ idsOf t) (hpar : parentOf h t = some p) (h2 : 2 ≤ t.cs.length)
+    (hwf : LenWF t) (hl1 : OWF l1) (hl2 : OWF l2) :
+    ∃ c ∈ t.nodes, c.id = h ∧ ∃ up : T, up.len = l1 ∧
+      ∀ a, rd (rerootAtEdge s h nw l1 l2 t).1 a =
+        (match down (toLT (c.withLen l2)) a with
+          | some d => some d
+          | none => down (toLT up) a) := by
+  obtain ⟨_, c, hcm, hch, up, hcs, hup⟩ := reroot_at_edge_position_partial h nw l1 l2 t p hfresh hpar
+  refine ⟨c, hcm, hch, up, hup, ?_⟩
+  have B := splitEdge_basic h nw l1 l2 hl1 hl2 t.size t (Nat.le_refl _) hids hwf
+  have F := splitEdge_fresh h nw l1 l2 t.size t (Nat.le_refl _) hfresh
+  set u := splitEdge h nw l1 l2 t with hu
+  have hintu : ∀ n ∈ u.nodes, n.id = nw → n.cs ≠ [] := by
+    intro n hn hid
+    obtain ⟨c', _, _, e⟩ := F.2 n hn hid
+    rw [e]; simp [T.cs]
+  have h2u : 2 ≤ u.cs.length := by rw [B.2]; exact h2
+  have hr := invert_is_chain nw u hintu h2u
+  have hwf0 := reach_lenWF hr B.1
+  have e0 : (rerootAtEdge false h nw l1 l2 t).1 = invertTo nw u := by
+    simp [rerootAtEdge, rerootAtNode, reseedAt, cleanup, hu]
+  rw [e0] at hcs
+  have hfalse : ∀ a, rd (invertTo nw u) a = (match down (toLT (c.withLen l2)) a with
+      | some d => some d
+      | none => down (toLT up) a) := by
+    intro a
+    simp only [rd, hcs, toLTL, downL]
+    cases down (toLT (c.withLen l2)) a <;> simp
+    cases down (toLT up) a <;> rfl
+  cases s
+  · intro a; rw [e0]; exact hfalse a
+  · -- with suppression: the root keeps its two children, each is suppressed inside, no root distance changes
+    have e1 : (rerootAtEdge true h nw l1 l2 t).1 = sup (invertTo nw u) := by
+      simp only [rerootAtEdge, rerootAtNode, reseedAt, cleanup, Bool.false_and, Bool.false_eq_true, if_false, if_true, ← hu]
+      cases hf : T.find? nw u with
+      | none => simp
+      | some n =>
+        obtain ⟨h1, h2'⟩ := find_mem nw u n hf
+        have hne := hintu n h1 h2'
+        have : n.cs.isEmpty = false := by
+          cases hcs' : n.cs with
+          | nil => exact absurd hcs' hne
+          | cons _ _ => rfl
+        simp [this]
+    intro a
+    rw [e1, ← hfalse a]
+    cases hr0 : invertTo nw u with
+    | node j y l0 s0 cs0 =>
+      rw [hr0] at hcs hwf0
+      simp only [T.cs] at hcs
+      subst hcs
+      rw [sup_root_of_two]
+      have S1 := sup_inv (c.withLen l2) (lenWF_child hwf0 (by simp))
+      have S2 := sup_inv up (lenWF_child hwf0 (by simp))
+      simp only [rd, T.cs, supL, toLTL, downL, S1.down, S2.down]
+
+example : ∃ p, parentOf 4 exTree = some p ∧ 5 ∉ idsOf exTree ∧ (idsOf exTree).Nodup ∧ 2 ≤ exTree.cs.length :=
+  ⟨0, by decide, by decide, by decide, by decide⟩
+/-- C's edge (length 2) split 1/2 + 3/2, default suppression: the leaf C below the head is at length2 = 3/2 from the root -/
+example : rd (rerootAtEdge true 4 5 (some ⟨1, 2⟩) (some ⟨3, 2⟩) exTree).1 4 = some (3/2) := by
+  simp [rd, rerootAtEdge, rerootAtNode, reseedAt, cleanup, exTree, splitEdge, splitEdgeL, invertTo, inv, invL, T.find?, T.findL?,
+    T.id, T.len, T.cs, T.withLen, sup, supL, mergeLen, toLTL, toLT, downL, down, lenQ]
+
+end DendroModel.C07
+
+namespace DendroModel.C07.Aux
+open DendroModel DendroModel.C07 DendroModel.Hier DendroModel.C01.Bridge
+
+theorem sdiff_union_left {A B : Nat} (h : A &&& B = 0) : sdiff (A ||| B) A = B := by
+  apply bits_inj
+  rw [bits_sdiff, bits_or]
+  have hd : Disjoint (bits A) (bits B) := (and_eq_zero_iff _ _).mp h
+  ext x
+  simp only [Set.mem_sdiff, Set.mem_union]
+  constructor
+  · rintro ⟨h1 | h1, h2⟩
+    · exact absurd h1 h2
+    · exact h1
+  · intro hx; exact ⟨Or.inr hx, fun ha => (Set.disjoint_left.mp hd) ha hx⟩
+
+theorem sdiff_union_right {A B : Nat} (h : A &&& B = 0) : sdiff (A ||| B) B = A := by
+  rw [Nat.lor_comm]; exact sdiff_union_left (by rw [Nat.land_comm]; exact h)
+
+/-- a clade list with one extra clade that is the complement of a clade already present has the same normalised image -/
+theorem map_norm_extra (L lo : Nat) (X Y : List Nat) (m e : Nat) (hY : ∀ x, x ∈ Y ↔ x ∈ X ∨ x = e) (hmX : m ∈ X)
+    (hn : norm L lo e = norm L lo m) (s : Nat) : s ∈ Y.map (norm L lo) ↔ s ∈ X.map (norm L lo) := by
+  simp only [List.mem_map]
+  constructor
+  · rintro ⟨a, ha, rfl⟩
+    rcases (hY a).mp ha with h | rfl
+    · exact ⟨a, h, rfl⟩
+    · exact ⟨m, hmX, hn.symm⟩
+  · rintro ⟨a, ha, rfl⟩
+    exact ⟨a, (hY a).mpr (Or.inl ha), rfl⟩
+
+theorem collapse_usplits (lo : Nat) (t : T) (hg : GoodL (T.toHL t.cs))
+    (hlo : bits lo ⊆ bits (maskL (T.toHL t.cs)))
+    (hsingle : ∀ a, bits lo ⊆ bits a ∨ Disjoint (bits lo) (bits a)) (hne : lo ≠ 0) :
+    (∀ s, s ∈ usplits lo (T.toH (collapseBasal t)) ↔ s ∈ usplits lo (T.toH t)) ∧
+    (2 ≤ t.cs.length → 2 ≤ (collapseBasal t).cs.length) := by
+  cases t with
+  | node i x l s cs =>
+  match cs, hg, hlo with
+  | [], _, _ => exact ⟨fun _ => by simp [collapseBasal], fun h => by simpa [collapseBasal] using h⟩
+  | [_], _, _ => exact ⟨fun _ => by simp [collapseBasal], fun h => by simpa [collapseBasal] using h⟩
+  | _ :: _ :: _ :: _, _, _ => exact ⟨fun _ => by simp [collapseBasal], fun h => by simpa [collapseBasal] using h⟩
+  | [a, b], hg, hlo =>
+    simp only [collapseBasal]
+    split
+    · -- b dissolved
+      rename_i hb
+      cases b with
+      | node j y lb sb bs =>
+      simp only [cs_node] at hb
+      have hbs : bs ≠ [] := by intro e; subst e; simp at hb
+      simp only [cs_node, T.toHL, toH_node_ne hbs, GoodL, maskL, mask, Nat.or_zero] at hg hlo
+      obtain ⟨_, _, hdis, _⟩ := hg
+      refine ⟨fun s => ?_, fun _ => by simp only [cs_node, List.length_cons]; omega⟩
+      simp only [cs_node, len_node]
+      have h1 : (a.withLen (mergeLen a.len lb) :: bs) ≠ [] := by simp
+      have h2 : [a, T.node j y lb sb bs] ≠ [] := by simp
+      rw [toH_node_ne h1, toH_node_ne h2]
+      simp only [usplits, T.toHL, withLen_toH', toH_node_ne hbs, maskL, mask, Nat.or_zero, cladesL, clades, List.append_nil]
+      apply (map_norm_extra _ lo _ _ (mask (T.toH a)) (maskL (T.toHL bs)) ?_ ?_ ?_ s).symm
+      · intro z; simp only [List.mem_append, List.mem_cons]; tauto
+      · exact List.mem_append_left _ (mask_mem_clades _)
+      · have hn := norm_compl (mask (T.toH a) ||| maskL (T.toHL bs)) lo (mask (T.toH a))
+          (by rw [bits_or]; exact Set.subset_union_left) hlo hsingle hne
+        rw [sdiff_union_left hdis] at hn
+        exact hn
+    · split
+      · rename_i hb ha
+        cases a with
+        | node k z la sa as =>
+        simp only [cs_node] at ha
+        have has : as ≠ [] := by intro e; subst e; simp at ha
+        simp only [cs_node, T.toHL, toH_node_ne has, GoodL, maskL, mask, Nat.or_zero] at hg hlo
+        obtain ⟨_, _, hdis, _⟩ := hg
+        refine ⟨fun s => ?_, fun _ => by simp only [cs_node, List.length_append, List.length_singleton]; omega⟩
+        simp only [cs_node, len_node]
+        have h1 : (as ++ [b.withLen (mergeLen b.len la)]) ≠ [] := by simp
+        have h2 : [T.node k z la sa as, b] ≠ [] := by simp
+        rw [toH_node_ne h1, toH_node_ne h2]
+        simp only [usplits, toHL_append, T.toHL, withLen_toH', toH_node_ne has, Hier.maskL_append, maskL, mask, Nat.or_zero,
+          cladesL_append, cladesL, clades, List.append_nil]
+        apply (map_norm_extra _ lo _ _ (mask (T.toH b)) (maskL (T.toHL as)) ?_ ?_ ?_ s).symm
+        · intro z; simp only [List.mem_append, List.mem_cons]; tauto
+        · exact List.mem_append_right _ (mask_mem_clades _)
+        · have hn := norm_compl (maskL (T.toHL as) ||| mask (T.toH b)) lo (mask (T.toH b))
+            (by rw [bits_or]; exact Set.subset_union_right) hlo hsingle hne
+          rw [sdiff_union_right hdis] at hn
+          exact hn
+      · exact ⟨fun _ => Iff.rfl, fun h => h⟩
+
+end DendroModel.C07.Aux
+
+namespace DendroModel.C07
+open DendroModel DendroModel.C07.Aux DendroModel.Hier DendroModel.C01.Bridge
+
+/-- **`reseed_at` keeps the set of unrooted splits for EVERY setting of `collapse_unrooted_basal_bifurcation` and
+    `suppress_unifurcations` (defaults included) and every rooting flag** — the whole inversion chain, then the basal collapse,
+    then the suppression: for every tree whose leaves carry distinct taxa (`GoodL`), every reference taxon bit `k` of the tree,
+    every internal target and a seed with ≥ 2 children, the set of normalised split masks of the result equals that of the tree. -/
+theorem reseed_keeps_usplits (flag : Option Bool) (collapse suppress : Bool) (tgt : Nat) (t : T) (k : Nat)
+    (hint : ∀ n ∈ t.nodes, n.id = tgt → n.cs ≠ []) (h2 : 2 ≤ t.cs.length)
+    (hg : GoodL (T.toHL t.cs)) (hk : k ∈ bits (maskL (T.toHL t.cs))) :
+    ∀ s, s ∈ usplits (1 <<< k) (T.toH (reseedAt flag collapse suppress tgt t).1) ↔ s ∈ usplits (1 <<< k) (T.toH t) := by
+  have hr := invert_is_chain tgt t hint h2
+  have hlo : bits (1 <<< k) ⊆ bits (maskL (T.toHL t.cs)) := by
+    rw [bits_shift]; exact Set.singleton_subset_iff.mpr hk
+  have K := reach_splitKeep hr (1 <<< k) (single_shift k) (shift_ne_zero k) hg hlo
+  have e : (reseedAt flag collapse suppress tgt t).1 = (cleanup flag collapse suppress (invertTo tgt t)).1 := by
+    simp only [reseedAt]
+    cases hf : T.find? tgt t with
+    | none => simp
+    | some n =>
+      obtain ⟨h1, h2'⟩ := find_mem tgt t n hf
+      have hne := hint n h1 h2'
+      have : n.cs.isEmpty = false := by
+        cases hcs : n.cs with
+        | nil => exact absurd hcs hne
+        | cons _ _ => rfl
+      simp [this]
+  rw [e]
+  have h2r := reach_two hr h2
+  -- the tree after the optional basal collapse
+  have C : (∀ s, s ∈ usplits (1 <<< k) (T.toH (if (collapse && unrootedFlag flag && (invertTo tgt t).cs.length == 2) = true
+        then collapseBasal (invertTo tgt t) else invertTo tgt t)) ↔ s ∈ usplits (1 <<< k) (T.toH t)) ∧
+      2 ≤ (if (collapse && unrootedFlag flag && (invertTo tgt t).cs.length == 2) = true
+        then collapseBasal (invertTo tgt t) else invertTo tgt t).cs.length := by
+    split
+    · have c := collapse_usplits (1 <<< k) (invertTo tgt t) K.good (by rw [K.maskEq]; exact hlo) (single_shift k) (shift_ne_zero k)
+      exact ⟨fun s => (c.1 s).trans (K.splits s), c.2 h2r⟩
+    · exact ⟨K.splits, h2r⟩
+  simp only [cleanup]
+  generalize (if (collapse && unrootedFlag flag && (invertTo tgt t).cs.length == 2) = true
+        then collapseBasal (invertTo tgt t) else invertTo tgt t) = t1 at C ⊢
+  cases suppress
+  · simpa using C.1
+  · intro s
+    simp only [if_true]
+    rw [sup_usplits _ t1 C.2 s]
+    exact C.1 s
+
+/-- the unrooted `((A,B),C)` case of the default `reseed_at`: basal collapse and suppression both happen; hypotheses hold -/
+example : GoodL (T.toHL exTree.cs) ∧ (reseedAt (some false) true true 0 exTree).1.cs.length = 3 := by
+  refine ⟨by simp [exTree, T.cs, T.toHL, T.toH, GoodL, Good, mask, maskL], by decide⟩
+
+end DendroModel.C07
+
+namespace DendroModel.C07
+open DendroModel DendroModel.C07.Aux DendroModel.C07.Path
+
+/-- **midpoint inside an edge, in root distances (with and without suppression):** when the walk of `reroot_at_midpoint`
+    answers "inside the edge above `hd`, `x` above its head", every leaf below that head ends up at root distance `x` + its
+    depth below the head, every other leaf at (edge length − `x`) + its distance from the old tail.  Together with
+    `midpoint_walk_spec_partial` (`x` + the lengths passed = half the distance of the pair) this puts the deeper leaf of the
+    pair at exactly half the distance from the new root.
+    `_partial` with respect to clause (b): the second leaf of the pair being at the same distance, and the on-node branch in
+    root distances, are not assembled (needs `rootPath`/`dropCommon` tied to `Path.dist`); `hpar` (the edge's head has a parent —
+    it lies below the MRCA) is assumed. -/
+theorem midpoint_in_edge_root_distances_partial (s : Bool) (a b nw : Nat) (t : T) (r : T × Option Bool) (hd p : Nat) (x : Frac)
+    (hmid : midpointOf a b t = .onEdge hd x) (h : rerootAtMidpoint s a b nw t = some r)
+    (hids : (idsOf t).Nodup) (hfresh : nw ∉ idsOf t) (hpar : parentOf hd t = some p) (h2 : 2 ≤ t.cs.length) (hwf : LenWF t) :
+    ∃ c ∈ t.nodes, c.id = hd ∧ ∃ up : T, up.len = some (lenOr0 c.len - x) ∧
+      ∀ z, rd r.1 z =
+        (match down (toLT (c.withLen (some x))) z with
+          | some d => some d
+          | none => down (toLT up) z) := by
+  have hx : x.WF := midpointOf_edge_wf a b t hd x hmid
+  unfold rerootAtMidpoint at h
+  rw [hmid] at h
+  simp only at h
+  split at h
+  · cases h
+  · rename_i hn hfind
+    cases h
+    obtain ⟨hnmem, hnid⟩ := find_mem hd t hn hfind
+    obtain ⟨c, hcm, hch, up, hup, hall⟩ := reroot_at_edge_root_distances s hd nw (some (lenOr0 hn.len - x)) (some x) t p
+      hids hfresh hpar h2 hwf (fun f hf => by cases hf; exact Frac.sub_wf _ _) (fun f hf => by cases hf; exact hx)
+    have : c = hn := List.inj_on_of_nodup_map hids hcm hnmem (hch.trans hnid.symm)
+    subst this
+    exact ⟨c, hcm, hch, up, hup, hall⟩
+
+/-- `(A:1,C:3)`: the midpoint of A–C falls inside C's edge, 2 above C, whose head (leaf C, id 2) has a parent -/
+example : midpointOf 1 2 (.node 0 none none none [.node 1 (some 0) (some ⟨1, 1⟩) none [], .node 2 (some 1) (some ⟨3, 1⟩) none []])
+    = .onEdge 2 ⟨2, 1⟩ ∧
+    parentOf 2 (.node 0 none none none [.node 1 (some 0) (some ⟨1, 1⟩) none [], .node 2 (some 1) (some ⟨3, 1⟩) none []]) = some 0 := by
+  decide
+
 end DendroModel.C07
